@@ -486,4 +486,3 @@ func (it *stringIter) next() tuple {
 	it.i += n
 	return okv
 }
-
